@@ -217,9 +217,10 @@ Fixpoint resolve_leaves (names : list str) (l : list sleaf) : option (list rleaf
 
 Record rt := mkRT { rt_store : kv;      (* the children of the vector: tuple -> value *)
                     rt_bufs : kv }.     (* the local metrics' pending amounts, by ghost name *)
-(* LocalCounter::flush / LocalHistogram::flush of one leaf *)
+(* LocalCounter::flush / LocalHistogram::flush of one leaf (both return at once when nothing is pending) *)
 Definition flush_leaf (st : rt) (l : rleaf) : rt :=
-  mkRT (kv_add (snd l) (kv_get (fst l) (rt_bufs st)) (rt_store st)) (kv_set (fst l) 0 (rt_bufs st)).
+  if kv_get (fst l) (rt_bufs st) =? 0 then st
+  else mkRT (kv_add (snd l) (kv_get (fst l) (rt_bufs st)) (rt_store st)) (kv_set (fst l) 0 (rt_bufs st)).
 (* the generated `flush`: `#(self.#names.flush();)*`, recursively *)
 Definition flush_leaves (st : rt) (ls : list rleaf) : rt := fold_left flush_leaf ls st.
 
